@@ -575,8 +575,31 @@ func (c *ctx) str(s string, class string) {
 		c.fail("total", "parse", []string{r.Prop + " " + line}, "Parse(%q) panicked: %s", s, p)
 		return
 	}
+	// MustParse: the same function with the error turned into a panic that names the input and
+	// the error (round D: every exported constructor is an entry point); its observation is a
+	// second answer to the same `parse` line, so it is tied to the model's `parse` as well
+	var mj jid.JID
+	mp := guard(func() { mj = jid.MustParse(s) })
+	mobs := "ok " + enc(mj)
+	if mp != "" {
+		mobs = "PANIC"
+		if err != nil && strings.HasPrefix(mp, "jid: Parse(") && strings.HasSuffix(mp, err.Error()) {
+			mobs = "err"
+		}
+	}
+	r.Line(line, mobs)
+	if mobs != obsRes(j, err, "") {
+		c.fail("build-agree", "mustparse", []string{r.Prop + " " + line}, "Parse(%q) = %s (%v), MustParse: %s %s", s, obsRes(j, err, ""), err, mobs, mp)
+	}
 	if err == nil {
 		c.canonical(j, []string{r.Prop + " " + line}, fmt.Sprintf("Parse(%q)", s))
+		if n := j.Network(); n != "xmpp" {
+			c.fail("accessors-agree", "network", []string{r.Prop + " " + line}, "Network() = %q", n)
+		}
+		var a net.Addr = j
+		if a.String() != j.String() {
+			c.fail("accessors-agree", "net-addr", []string{r.Prop + " " + line}, "as net.Addr: %q, String() %q", a.String(), j.String())
+		}
 	}
 }
 
